@@ -5,6 +5,7 @@ import (
 	"flag"
 	"fmt"
 	"go/token"
+	"go/types"
 	"math/rand"
 	"os"
 	"path/filepath"
@@ -30,6 +31,7 @@ func lifecycle(args []string) {
 	histFile := fs.String("hist", "", "JSON file: list of visit sequences (catalogue indices) for -mode hist")
 	frac := fs.Int("frac", 1, "use every frac-th checker (rotated by seed)")
 	only := fs.String("checkers", "", "comma list of checker names (overrides -frac)")
+	exclude := fs.String("exclude", "", "comma list of checker names that are not run at all (after an unrecoverable crash)")
 	seed := fs.Int64("seed", 1, "seed")
 	trace := fs.String("trace", "", "NDJSON trace output")
 	out := fs.String("out", "", "JSON result output")
@@ -37,6 +39,7 @@ func lifecycle(args []string) {
 	catN := fs.Int("cat", 8, "catalogue size for -mode hist")
 	maxG := fs.Int("maxg", 0, "pairs: limit the number of predecessor files (0 = all)")
 	goVer := fs.String("go", "", "target Go version")
+	sizesArch := fs.String("sizes", "", "GOARCH whose type sizes the contexts use (default: the host's); e.g. 386")
 	params := fs.String("params", "default", "parameter corner: default | min | max | name.param=value,... ")
 	repeats := fs.Int("repeats", 5, "repeat: number of passes")
 	resetEach := fs.Bool("reset-each-pass", false, "repeat: construct a new checker set for every pass")
@@ -46,6 +49,13 @@ func lifecycle(args []string) {
 
 	t0 := time.Now()
 	hx.Init()
+	if *sizesArch != "" {
+		sz := types.SizesFor("gc", *sizesArch)
+		if sz == nil {
+			hx.Fatalf("unknown -sizes %q", *sizesArch)
+		}
+		hx.Sizes = sz
+	}
 	rng := rand.New(rand.NewSource(*seed))
 	fset := token.NewFileSet()
 	var units []*hx.Unit
@@ -63,6 +73,19 @@ func lifecycle(args []string) {
 				in.Params["rules"].Value = *rgrules
 			}
 		}
+	}
+	if *exclude != "" {
+		skip := map[string]bool{}
+		for _, n := range strings.Split(*exclude, ",") {
+			skip[n] = true
+		}
+		var kept []*linter.CheckerInfo
+		for _, in := range infos {
+			if !skip[in.Name] {
+				kept = append(kept, in)
+			}
+		}
+		infos = kept
 	}
 	var names []string
 	if *only != "" {
